@@ -259,6 +259,38 @@ func c14(r *eng.Run) {
 	r.Set("pass2_max_depth", st2.MaxDepth)
 	r.Set("pass2_closed", st2.Closed)
 	st.Transitions += st2.Transitions
+	// pumped histories: one cheap op (successful, failing, aborted by the handler, re-entrant)
+	// repeated far beyond any depth bound, then a probe set — counters leaked per call only show
+	// after thousands of calls
+	var cheapOps, probes []int
+	for i, op := range sys.ops {
+		if !strings.Contains(op.name, "depth1") && !strings.Contains(op.name, "odepth") && !strings.Contains(op.name, "depth40") {
+			cheapOps = append(cheapOps, i)
+		}
+		for _, pn := range []string{"Valid/mixed", "SkipValue/obj", "SkipValueFast/mixed", "Handle[/mixed/nested", "Handle{/obj/skipsame", "Handle[/mixed/decline", "SkipValue/depth10000", "SkipValueFast/depth10000", "Handle[/depth10001/decline", "Valid/depth10001"} {
+			if op.name == pn {
+				probes = append(probes, i)
+			}
+		}
+	}
+	pumped := 0
+	for _, a := range cheapOps {
+		K := r.Pick(10050, 20100)
+		hist := make([]int, K)
+		for i := range hist {
+			hist[i] = a
+		}
+		for _, b := range probes {
+			sys.Replay(hist, b)
+			pumped++
+		}
+		if r.TooMany() {
+			break
+		}
+	}
+	r.Set("pumped_histories", pumped)
+	r.Set("pumped_history_length", r.Pick(10050, 20100))
+	st.Transitions += pumped
 	r.Set("states", st.States)
 	r.Set("transitions", st.Transitions)
 	r.Set("traces_validated_against_impl", st.Transitions)
